@@ -16,6 +16,10 @@ from buidl.timelock import (
 )
 
 
+# consensus limit on the size of a pushed element
+MAX_SCRIPT_ELEMENT_SIZE = 520
+
+
 def number_to_op_code_byte(n):
     """Returns the OP code for a particular number"""
     if n < -1 or n > 16:
@@ -221,6 +225,9 @@ def op_if(stack, items):
     num_endifs_needed = 1
     while len(items) > 0:
         item = items.pop(0)
+        if isinstance(item, bytes) and len(item) > MAX_SCRIPT_ELEMENT_SIZE:
+            # an oversized push fails the script even in a branch that is not executed
+            return False
         if item in (99, 100):
             # nested if, we have to go another endif
             num_endifs_needed += 1
@@ -261,6 +268,9 @@ def op_notif(stack, items):
     num_endifs_needed = 1
     while len(items) > 0:
         item = items.pop(0)
+        if isinstance(item, bytes) and len(item) > MAX_SCRIPT_ELEMENT_SIZE:
+            # an oversized push fails the script even in a branch that is not executed
+            return False
         if item in (99, 100):
             # nested if, we have to go another endif
             num_endifs_needed += 1
